@@ -14,15 +14,18 @@ PROPS_FILE = "Props/C11.v"
 PROPS_MODULE = "Props.C11"
 RULE = ("exhaustive enumeration of tempo lists on the half-beat grid (quick: <=2 changes after the first within 3 measures x 3 bpm "
         "pairs x metronomes {3,4}; thorough: <=3 changes) plus seeded random lists on grids 1/3,1/4,1/7,1/16,1/96,1/1000 "
-        "(1..6 changes, shared metronome 1..8, any initial offset); lists with two changes on ONE position (half-beat grid; outside the "
-        "theorems' strict domain: structural equality with the model + the weaker oracle reseat_specb_ties); the implementation runs on fractions.Fraction; "
+        "(1..6 changes, shared metronome 1..8, any initial offset); lists with TIES = two or three changes on ONE position, one or two "
+        "tie groups, grids 1/2,1/3,1/4, also on the first change, in seated lists and given shuffled (domain wf_ties of theorems T1-T7: "
+        "structural equality with the model + the proven oracle reseat_tiesb); the implementation runs on fractions.Fraction; "
         "non-trivial = at least one change off a measure line; distinct by hash of canonical JSON")
 ASSUMPTIONS = [
     "exact arithmetic only: the implementation is executed on fractions.Fraction (RAConst.MIN_TO_MSEC patched to Fraction(60000) "
     "in the harness process); binary64 behaviour of reseat is not claimed (float noise changes which branch is taken)",
     "lists mixing metronomes at off-line positions are outside the claimed domain (explored by correspondence only)",
-    "two changes on one position: not covered by the theorems (wf_unseated is strict); per run the model must equal the implementation "
-    "structurally and the output must be on measure lines with non-decreasing measures, keep every original time and add at most one point per interval",
+    "ties (two or more changes on one position): covered by the theorems on the domain wf_ties with the same input guards (a tie "
+    "is a gap of 0 beats and takes no branch); 'the bpm after a tie' is read with the timeline semantics: of tied changes the LAST "
+    "in (stably sorted) list order is in force (active_at); the strict-domain oracle clause bpm_kept, which reads the FIRST result "
+    "point at a time, does not apply to ties (refuted as a reading, theorem T7) and is replaced by refinesb/ActiveLastP",
 ]
 TRUSTED = []
 MANIFEST = dict(
@@ -41,7 +44,19 @@ MANIFEST = dict(
          "no guard needed; (4) the boolean oracle reseat_specb is sound for the clause-by-clause Prop statement on any "
          "pair of lists and accepts every model output in the guarded domain; (5) the two known findings are theorems with "
          "concrete witnesses outside the guard (extend-by-metronome insertion loses the original time; a gap below 0.001 "
-         "measure raises or yields non-increasing measures). The oracle is evaluated in Coq on the implementation's output.",
+         "measure raises or yields non-increasing measures). TIES (two or more changes on one position; domain wf_ties = the same "
+         "with NON-decreasing positions, same guards since a zero-length gap takes no branch): (T1) termination; (T2) under the guard "
+         "the result exists, every point is on a measure line, measures never decrease and stay equal exactly where times stay equal, "
+         "which happens only across a tie of the input; every original change is matched in order by a result point at its time, a tie "
+         "by two adjacent points in the input's (stable-sort) order, the earlier keeping its bpm; at most one extra point strictly "
+         "inside each original interval, none outside; bpm kept after a whole number of measures; elapsed time unchanged; result "
+         "times non-decreasing; same for from_bpm_changes_snap(init, l, reseat=True); (T3) the bpm in force after a tie is that of the "
+         "LAST change of the tie group (its image is the last result point at that time and is in force until the next result "
+         "point; it carries the change's bpm whenever a whole number of measures follows or a point is inserted); (T4) a seated list "
+         "with ties on measure lines is returned with the same length, times and bpms, no guard; (T5) the oracle reseat_tiesb used "
+         "for tie cases is sound for all of this on ANY output and complete for the structural spec (refinesb decides the timeline "
+         "refinement); (T7) false with ties, as readings of the statement not as code defects: 'bpm at time t' = bpm of the FIRST "
+         "result point at t, and strictly increasing result times. The oracle is evaluated in Coq on the implementation's output.",
     note="Trusted: Coq kernel+VM, harness generator/serialiser; exact-arithmetic stream only (binary64 not claimed). Not proved: "
          "oracle completeness, necessity of the guard (observed exact on 6000 outputs), TimingMap.reseat() beyond correspondence.",
     technique="Coq proof over executable model (loop = structural function by list surgery, per-gap arithmetic lemma, "
@@ -94,20 +109,31 @@ def generate(rng, tier):
             pos.append(pos[-1] + step)
         bpms = [rng.choice(BPMS) for _ in pos]
         cases.append(_mk_case("reseat", met, pos, bpms))
-    # two changes on ONE position (half-beat grid, so that no extend window is involved): outside the theorems' strict
-    # domain, judged by structural equality with the model and the weaker oracle reseat_specb_ties
-    for _ in range(60 if tier == "quick" else 1500):
+    # two or more changes on ONE position (ties): domain wf_ties of the tie theorems (Props/C11.v T1-T7).  Grids 1/2, 1/3, 1/4
+    # with metronomes 3,4,5 keep every gap remainder a multiple of 1/20 or more, far from the 0.001 extend window, so the
+    # guard of the theorem holds; one or two tie groups of 2-3 changes, sometimes on the first change (measure 0 beat 0),
+    # sometimes in an already seated list (ties on measure lines), sometimes given shuffled (the function sorts stably, so
+    # the order among tied changes is the input order and decides which bpm is in force after the tie)
+    for _ in range(120 if tier == "quick" else 3000):
         met = rng.choice([4, 4, 3, 5])
-        n = rng.choice([2, 3, 3, 4])
-        grid = [Fr(k, 2) for k in range(1, 2 * met * 3 + 1)]
-        pos = sorted(rng.sample(grid, n))
-        j = rng.randrange(len(pos))
-        pos.insert(j, pos[j])                     # the tie (never the first change at 0)
-        pos = [Fr(0)] + pos
+        n = rng.choice([1, 2, 3, 3, 4])
+        if rng.random() < 0.2:
+            grid = [Fr(k * met) for k in range(1, 6)]                     # seated list
+        else:
+            g = rng.choice([2, 2, 3, 4])
+            grid = [Fr(k, g) for k in range(1, g * met * 3 + 1)]
+        pos = [Fr(0)] + sorted(rng.sample(grid, min(n, len(grid))))
+        for _g in range(rng.choice([1, 1, 1, 2])):
+            j = rng.randrange(len(pos)) if rng.random() < 0.15 else rng.randrange(1, len(pos))
+            for _k in range(rng.choice([1, 1, 1, 2])):
+                pos.insert(j, pos[j])
         bpms = rng.sample(BPMS, min(len(pos), len(BPMS)))
         while len(bpms) < len(pos):
             bpms.append(rng.choice(BPMS))
-        cases.append(_mk_case("reseat_tie", met, pos, bpms))
+        c = _mk_case("reseat_tie", met, pos, bpms)
+        if rng.random() < 0.3:
+            rng.shuffle(c["l"])
+        cases.append(c)
     # random finer grids
     n_rand = 250 if tier == "quick" else 8000
     for _ in range(n_rand):
